@@ -122,6 +122,12 @@ example : runLoop true 2048 [([0], false), (0x23 :: List.replicate 47 0, false)]
     statements of `runIPServer`'s loop body restore `buf` and `oob` to full capacity. -/
 theorem C09_pin_restoreAtLoopTop : Gen.Server.ipServerRestoresBufAtLoopTop = true := by decide
 
+/-- The same fact for the SCION listener: the first statements of the receive loop body of
+    `runSCIONServer` are `buf = buf[:cap(buf)]`, `oob = oob[:cap(oob)]` and the read (every
+    rejection path leaves the body with `continue`; a restore anywhere else would be skipped). -/
+theorem C09_pin_scionRestoreAtLoopTop : Gen.Server.scionServerRestoresBufAtLoopTop = true := by
+  decide
+
 /-! ### history independence of the NTS branch -/
 
 /-- `loopIterN` with a fresh request struct per datagram is `loopIter` fed with the branch's
@@ -182,6 +188,21 @@ example : runLoopN true true (2048, []) [junkCookie 9, assocReq 1, plainReq, ass
     declared (`var X T`, zero value) inside the body of the receive loop, before their use. -/
 theorem C09_pin_requestStateInLoop :
     Gen.Server.ipServerRequestStateInLoop = true ∧ Gen.Server.scionServerRequestStateInLoop = true := by decide
+
+/-- `runIPServer`: `authenticated`, `ntpreq`, `ntsreq`, `serverCookie` are declared (`var X T` /
+    `X := …`) lexically inside the body of the receive loop and nowhere else in the function:
+    none of them outlives an iteration (an `authenticated` left `true` by one datagram would
+    authenticate the next; `nts.DecodePacket` appends into the `ntsreq` it is handed). -/
+theorem C09_pin_ipDeclaresPerIteration :
+    Gen.Server.ipServerDeclaresPerIteration =
+      ["authenticated", "ntpreq", "ntsreq", "serverCookie"] := by decide
+
+/-- `runSCIONServer`: the same for `authenticated` (SPAO), `ntsAuthenticated`, `ntpreq`, `ntsreq`,
+    `serverCookie`: declared inside the receive loop body (in the `else` branch of the
+    destination-port check), not in the function outside the loop, so reset per datagram. -/
+theorem C09_pin_scionDeclaresPerIteration :
+    Gen.Server.scionServerDeclaresPerIteration =
+      ["authenticated", "ntpreq", "ntsAuthenticated", "ntsreq", "serverCookie"] := by decide
 
 /-- Nothing shorter than 48 bytes (in particular the empty datagram) is answered. -/
 theorem C09_short_never_answered (b : List Nat) (ntsOk : Bool) (h : b.length < 48) :
